@@ -119,4 +119,10 @@ META = {
         "note": "Trusted: Lean kernel; the property's own loss model; fdatasync semantics; no real power loss can be run.",
         "technique": "Lean 4 theorems on sync ordering in event scripts + power-loss image reconstruction from traced syscalls",
     },
+    "C14": {
+        "text": "Fault scripts (hand model of every error path) with theorems for all states and fault positions: the in-memory index after a failed put is the old or the fully-applied one, there is no panic outcome, and the blob of a put whose WAL append failed is never deleted by later operations. The rest of the property (later operations, reopen succeeds, keys old-or-new) is decided per run by injecting a failure at EVERY mutating call of targeted operations and comparing with the model and the property's oracle. " + _corr,
+        "design_ref": "DESIGN.md §7 C14",
+        "note": "Trusted: Lean kernel; Fault.lean hand-modelled error paths (BufWriter/Drop semantics read from std); interposer fail mode.",
+        "technique": "Lean 4 theorems over fault scripts + exhaustive single-fault injection per operation via LD_PRELOAD with differential comparison",
+    },
 }
